@@ -245,6 +245,10 @@ class Interp:
         return d
 
     def ev_JoinedStr(self, e, fr):
+        if self.theory is not None:
+            r = self.theory.joined_str(self, e, fr)      # string theories may give f-strings a value
+            if r is not None:
+                return r
         return B.OpaqueStr()
 
     def ev_Lambda(self, e, fr):
